@@ -25,7 +25,34 @@ def gen_cases(tier, rng):
                       "meta": {"stream": "valid:" + s["tags"]["t"].rstrip("0123456789/").split("/")[0], "expected": s["expected"],
                                "tags": {k: v for k, v in s["tags"].items() if k != "pk"}, "events": [d.hex() for d in s["dgs"]]}})
     cases += multiblock_cases(tier)
+    cases += css7_cases(tier, rng)
     return cases
+
+
+def css7_cases(tier, rng):
+    """Counter-Strike: Source servers answering with protocol 7 use the split header without a size field; here
+    every players / rules reply of such a server is sent bzip2-compressed (the rare corner of the generated stream)"""
+    import bz2
+    r = rng.fork("css7")
+    seeds = [r.next() >> 1 for _ in range(4000 if tier == "quick" else 40000)]
+    outs = [parse_spec(l) for l in run_model([spec_case(x) for x in seeds])]
+    hits = []
+    for x, o in zip(seeds, outs):
+        info = [d for d in o["dgs"] if d and d[:5] == b"\xff\xff\xff\xff\x49"]
+        if o["settings"][3:8] == bytes([1, 0, 0, 0, 240]) and info and info[0][5] == 7 and o["expected"].startswith("Ok("):
+            hits.append((x, o))
+    hits = hits[:(40 if tier == "quick" else 600)]
+    second = []
+    for x, o in hits:
+        pk = [bytes.fromhex(h) for h in o["tags"]["pk"].split(",")]
+        second.append(spec_case(x, tuple(bz2.compress(p) if j > 0 else None for j, p in enumerate(pk))))
+    out = []
+    for (x, _), l in zip(hits, run_model(second)):
+        s = parse_spec(l)
+        out.append({"id": "css7/%d" % x, "hex": assemble(s["settings"], s["dgs"], s["bz"]),
+                    "meta": {"stream": "valid:css-protocol7-compressed", "expected": s["expected"],
+                             "tags": {k: v for k, v in s["tags"].items() if k != "pk"}, "events": [d.hex() for d in s["dgs"]]}})
+    return out
 
 
 def multiblock_cases(tier):
